@@ -2,6 +2,7 @@ package linter
 
 import (
 	"fmt"
+	"slices"
 	"strings"
 	"sync"
 
@@ -25,6 +26,9 @@ type Linter struct {
 
 	// Error() is called concurrently from custom linter (plugin) goroutines
 	mu sync.Mutex
+
+	// modules that are being included now, to detect a module which includes itself
+	including []string
 }
 
 func New(c *config.LinterConfig, opts ...optionFunc) *Linter {
@@ -457,6 +461,23 @@ func (l *Linter) resolveFileInclusion(
 ) []ast.Statement {
 
 	var statements []ast.Statement
+	if slices.Contains(l.including, include.Module.Value) {
+		e := &LintError{
+			Severity: ERROR,
+			Token:    include.GetMeta().Token,
+			Message: fmt.Sprintf(
+				"include cycle detected: %s -> %s",
+				strings.Join(l.including, " -> "), include.Module.Value,
+			),
+		}
+		l.Error(e.Match(INCLUDE_STATEMENT_MODULE_LOAD_FAILED))
+		return statements
+	}
+	l.including = append(l.including, include.Module.Value)
+	defer func() {
+		l.including = l.including[:len(l.including)-1]
+	}()
+
 	module, err := ctx.Restore().Resolver().Resolve(include)
 	if err != nil {
 		e := &LintError{
